@@ -20,7 +20,7 @@ ASSUMPTIONS = [
   'termination of HeapBalancerSink.__Get is not proved',
   'completeness of the down list (every member with load >= 0 is linked) is not yet under contract: "not open is chosen only when no member is open" is proved in the form "open unless every member is marked down"',
   'assume(n.g_out < 2147483645) at dispatch: fewer than 2^31-3 outstanding requests per member',
-  'the Node universe is per balancer instance (nodes are created only by _AddSink of this instance)',
+  'the Node universe is per balancer instance (nodes are created only by _AddSink of this instance); HeapBalancerSink.__init__ is verified to establish the invariant from "no node exists yet"',
 ]
 TRUSTED = []
 BOUNDED = []
